@@ -482,6 +482,25 @@ func (w *fdWorld) recordMeta(rep *fdRep, ops []operations.Operation, apis []stri
 	}
 }
 
+// asetOnMovedInLog: the log holds an ArraySet whose target element was moved by an earlier operation
+// (the characterising shape of c03-set-move-anchor-purged / c07-set-on-moved-element).
+func (w *fdWorld) asetOnMovedInLog() bool {
+	moved := map[string]bool{}
+	for _, cn := range w.log {
+		for _, op := range cn.Operations() {
+			switch o := op.(type) {
+			case *operations.Move:
+				moved[o.CreatedAt().Key()] = true
+			case *operations.ArraySet:
+				if moved[o.CreatedAt().Key()] {
+					return true
+				}
+			}
+		}
+	}
+	return false
+}
+
 // movePos reports whether t is the position identity created by a Move in the log, and the element it moved.
 func (w *fdWorld) movePos(t *time.Ticket) *operations.Move {
 	for _, cn := range w.log {
@@ -1307,6 +1326,14 @@ func (r *fdRun) snapshotAttach(toks []string) {
 		}
 		if mx != my || mx != mf {
 			tag := w.taint[x.name]
+			if tag == "" && w.gc && out.Marshal() == mx && w.asetOnMovedInLog() {
+				// the snapshot is faithful (the server's rebuilt document already shows this content): the
+				// server document, garbage-collected between the changes, differs from the fold because an
+				// ArraySet on a previously moved element lands at the element's current place once the
+				// original slot is purged (listed C03 finding met on a C02 history; found by the thorough tier)
+				tag = "c03-set-move-anchor-purged"
+				c.Count("finding-site:c03-set-move-anchor-purged-on-server-doc")
+			}
 			r.oracle(tag, "snapshot-fed %s differs from change-fed %s / full fold in world %s: snapshot %s, changes %s, fold %s", x.name, y.name, w.pfx, mx, my, mf)
 			return
 		}
